@@ -71,6 +71,18 @@ Proof. unfold poly_swap. rewrite swap_loop_rev by lia. cbn [rev app]. rewrite ap
 Theorem poly_swap_involutive {T} (c : list T) : poly_swap (poly_swap c) = c.
 Proof. rewrite !poly_swap_is_rev. apply rev_involutive. Qed.
 
+(* the public wrappers: defined for every length, 0 for the empty polynomial *)
+Theorem poly_wrappers_spec c x :
+  poly_eval_w R_ops c x = pval c x /\ poly_evar_w R_ops c x = pval (rev c) x /\ poly_swap_w c = rev c.
+Proof.
+  split; [|split].
+  - unfold poly_eval_w. destruct c as [|a t]; [reflexivity|]. rewrite poly_eval_spec by discriminate. reflexivity.
+  - unfold poly_evar_w. destruct c as [|a t]; [reflexivity|].
+    rewrite poly_evar_spec, poly_eval_spec; [reflexivity|].
+    intro E. apply (f_equal (@length R)) in E. rewrite rev_length in E. discriminate.
+  - unfold poly_swap_w. destruct c as [|a [|b t]]; try reflexivity. apply poly_swap_is_rev.
+Qed.
+
 (* ------------------------------------------------------------------ trajectories *)
 Ltac ev := unfold traj_pos, traj_vel, traj_acc, traj_jer, poly_eval, c1_of, c2_of, c3_of,
            trajpoly3_gen, trajpoly5_gen, trajpoly7_gen, half, sixth;
